@@ -169,8 +169,8 @@ Proof. exact PCallFacts.PCall_ok_depth. Qed.
 Print Assumptions vm_PCall_ok_depth.
 
 (* the full "prefix of the fault-free side effects" statement relates two runs (with and without
-   the injected fault); it is kept as a definition: only the single-run extension law above is
-   proved, the two-run law is checked by the harness's fault enumeration *)
+   the injected fault): stated here as a definition and PROVED below (fault_prefix) by a lock-step
+   simulation of the two runs over the whole evaluator and the coroutine driver *)
 Definition fin_state (f : fin) : option state :=
   match f with FinOk _ s | FinErr _ s => Some s | _ => None end.
 Definition with_fault (d : devs) (k : Z) : devs :=
@@ -181,3 +181,40 @@ Definition fault_prefix_statement : Prop :=
     fin_state (run_program n d body) = Some s1 ->
     fin_state (run_program n (with_fault d k) body) = Some s2 ->
     firstn (Z.to_nat (k - 1)) (trace s2) = firstn (Z.to_nat (k - 1)) (trace s1).
+
+(* ---- the two-run law of fault injection (Lua/FaultFacts, FaultStepFacts, FaultRunFacts) ---- *)
+From GL Require Lua.FaultFacts Lua.FaultStepFacts Lua.FaultRunFacts.
+
+(* a run in which the k-th call of the host function emit fails leaves the same first k-1 trace
+   rows as the fault-free run of the same program with the same fuel: for all programs (also with
+   coroutines, pcall/xpcall around or inside the failing call, errors, metamethods), all k, all
+   other deviation switches *)
+Theorem fault_prefix : fault_prefix_statement.
+Proof. exact FaultRunFacts.fault_prefix_lemma. Qed.
+Print Assumptions fault_prefix.
+
+(* the same up to the return of any single call — e.g. a protected call: whatever states the call
+   ends in (normally or by an error) under the two switches, their first k-1 rows agree *)
+Theorem call_fault_prefix : forall n k fr f args s s1 s2,
+  dv_emit_fault (dv s) = 0 -> 0 < k ->
+  FaultRunFacts.res_state (call n fr f args s) = Some s1 ->
+  FaultRunFacts.res_state (call n fr f args (FaultFacts.fl k s)) = Some s2 ->
+  firstn (Z.to_nat (k - 1)) (trace s2) = firstn (Z.to_nat (k - 1)) (trace s1).
+Proof. exact FaultRunFacts.call_fault_prefix_lemma. Qed.
+Print Assumptions call_fault_prefix.
+
+(* the simulation behind it: result trees of the two runs are in lock step (same shape, values,
+   states equal up to the switch, continuations related) or diverged inside emit with k-1 common rows *)
+Theorem call_fault_simulation : forall n k fr f args s,
+  dv_emit_fault (dv s) = 0 -> 0 < k ->
+  FaultFacts.agree k (call n fr f args s) (call n fr f args (FaultFacts.fl k s)).
+Proof. exact FaultRunFacts.call_agree_lemma. Qed.
+Print Assumptions call_fault_simulation.
+
+(* the two runs can only part inside emit, at the call that finds exactly k-1 rows *)
+Theorem emit_before_fault : forall n k fr args s,
+  dv_emit_fault (dv s) = 0 -> 0 < k -> len (trace s) + 1 <> k ->
+  builtin_call (S n) fr BEmit args s = Ret [] (with_trace s (trace s ++ [args])) /\
+  builtin_call (S n) fr BEmit args (FaultFacts.fl k s) = Ret [] (FaultFacts.fl k (with_trace s (trace s ++ [args]))).
+Proof. exact FaultRunFacts.emit_before_fault_lemma. Qed.
+Print Assumptions emit_before_fault.
